@@ -55,13 +55,18 @@ Proof.
     split; [lia|]. split; nia.
 Qed.
 
-Lemma rn53_spec n d : 0 < n -> 0 < d -> let (m, e) := rn53 n d in near n d m e.
+(* rn53 unfolded: the exponent it selects and the rounding of the scaled quotient *)
+Definition rne_quot (n' d' : Z) : Z :=
+  let q := n' / d' in let r := n' mod d' in
+  if (2 * r >? d') || ((2 * r =? d') && Z.odd q) then q + 1 else q.
+Lemma rn53_detail n d : 0 < n -> 0 < d ->
+  exists e n' d', scale2 n d e = (n', d') /\ 0 < d' /\ 2 ^ 52 * d' <= n' /\ n' < 2 ^ 53 * d' /\
+    rn53 n d = (if rne_quot n' d' =? 2 ^ 53 then (2 ^ 52, e + 1) else (rne_quot n' d', e)).
 Proof.
   intros Hn Hd. unfold rn53. set (e0 := Z.log2 n - Z.log2 d - 52).
   pose proof (scale2_e0 n d Hn Hd) as S0. fold e0 in S0.
   pose proof (scale2_pred n d e0) as SP.
   destruct (scale2 n d e0) as [n1 d1] eqn:E1.
-  (* the exponent finally used, with 2^52 <= n'/d' < 2^53 *)
   assert (Hsel : exists e n' d', (if n1 <? d1 * 2 ^ 52 then e0 - 1 else e0) = e /\ scale2 n d e = (n', d') /\
                                  0 < d' /\ 2 ^ 52 * d' <= n' /\ n' < 2 ^ 53 * d').
   { destruct S0 as (P1 & L1 & U1). change (2 ^ 52) with 4503599627370496 in *. change (2 ^ 51) with 2251799813685248 in *.
@@ -72,7 +77,13 @@ Proof.
       destruct SP as [[-> ->] | [-> ->]]; lia.
     - apply Z.ltb_ge in C. exists e0, n1, d1. split; [reflexivity|]. split; [exact E1|]. lia. }
   destruct Hsel as (e & n' & d' & -> & Es & Pd & Lo & Hi).
-  rewrite Es.
+  exists e, n', d'. rewrite Es. unfold rne_quot. repeat split; assumption.
+Qed.
+
+Lemma rn53_spec n d : 0 < n -> 0 < d -> let (m, e) := rn53 n d in near n d m e.
+Proof.
+  intros Hn Hd. destruct (rn53_detail n d Hn Hd) as (e & n' & d' & Es & Pd & Lo & Hi & ->).
+  unfold rne_quot.
   assert (Hn' : n' = n * 2 ^ Z.max 0 (- e)) by (unfold scale2 in Es; congruence).
   assert (Hd' : d' = d * 2 ^ Z.max 0 e) by (unfold scale2 in Es; congruence).
   pose proof (Z.div_mod n' d' ltac:(lia)) as DM. pose proof (Z.mod_pos_bound n' d' Pd) as RB.
